@@ -204,6 +204,14 @@ def step_reconstruct(w, how, j, ctor):
             return
         if isinstance(new, np.ma.MaskedArray):
             return
+        # a shallow copy of a wrapper shares the wrapped ndarray: if that is a view of a still-writable base, the base
+        # is "another alias of the same memory" (not covered by the statement) -> not generated
+        nd = new.val if isinstance(new, ift.AnyArray) else new
+        b = nd
+        while isinstance(getattr(b, "base", None), np.ndarray):
+            b = b.base
+        if b is not nd and b.flags.writeable:
+            return
         dom = domain_for(tuple(new.shape))
         if ctor == "Field":
             f = ift.Field(dom, new)
